@@ -35,3 +35,13 @@ Theorem C08_impl_group : forall nm listed,
   mask_of nm (impl_enabled listed) = mask_of nm listed.
 Proof. exact impl_enables_listed. Qed.
 Print Assumptions C08_impl_group.
+
+(* cglue_impl_group!(T, G, { owned }, { forward }): the two lists are independent — the owned filler enables exactly the owned list, the Fwd filler
+   exactly the forward list (forward modes of case id 204: the same list, its complement, its rotation) *)
+Theorem C08_impl_group_fwd : forall g fm mask, fm <> 1 ->
+  let nm := length (g_mand g) in
+  let owned := rev (filter (in_mask nm mask) (g_opt g)) in
+  let fwd := rev (filter (in_mask nm (fwd_mask (length (g_opt g)) fm mask)) (g_opt g)) in
+  impl_row g fm mask = [mask; mask_of nm owned; nz (length owned); mask_of nm fwd; nz (length fwd); mask_of nm owned; 0].
+Proof. exact impl_row_lists. Qed.
+Print Assumptions C08_impl_group_fwd.
